@@ -11,7 +11,7 @@ from simkit import gen, model
 from simkit.harness import HarnessError, World
 from simkit.seam import REAL
 
-TIERS = {"C13": {"quick": 1600, "thorough": 25000}}
+TIERS = {"C13": {"quick": 1600, "thorough": 14000}}
 LEVEL = {"C13": "exploration"}
 RULE = {
     "C13": "history of 5-25 steps over <=12 files (2% of runs: 1000-2100 files for the SQL batch "
